@@ -1026,7 +1026,8 @@ Proof.
   intros HC Hn. pose proof HC as (G & HL & _).
   assert (Hsame : forall c', c' = core_of s -> cinv (n + hdr_count o) sub0 c' /\ step_rel P s o (core_of s) c').
   { intros c' ->. split; [eapply cinv_mono; [|exact HC]; lia|]. left. apply normA_refl. exact G. }
-  destruct o as [p now hs|p now x|p st la full|p|prev fs stop|h| |p now hs k]; cbn [step hdr_count] in *.
+  destruct o as [p now hs|p now x|p st la full|p|prev fs stop|h| |p now hs k|p now hs k]; cbn [step hdr_count] in *.
+  9:{ exfalso. destruct G as [[G1 G2] _]. cbn [core_of k_chain k_fchain] in *. lia. }
   7:{ apply Hsame. apply core_restart. destruct G as [_ G]. cbn [core_of k_ftip k_fchain] in G. exact G. }
   7:{ destruct (shape_step n (length hs) sub0 _ _ HC Hn (handle_headers_f_shape P now p hs k s)) as [H1 [H2|H2]].
       - split; [exact H1|]. left. exact H2.
@@ -1714,13 +1715,36 @@ Proof.
     apply normA_reorg_wr; assumption.
 Qed.
 
+Lemma restart_J P s : Jcp P (nextCp s) -> Jcp P (nextCp (restart P s)).
+Proof.
+  intros HJ. unfold restart, chain_tip. destruct (last (chain s)) as [t|] eqn:Et; [|exact HJ].
+  cbn [nextCp]. apply find_next_cp_J. unfold tip_height, zlen. destruct (chain s); [discriminate|]. cbn [length]. lia.
+Qed.
+
+Lemma handle_headers_r_J P now p hs k s : Jcp P (nextCp s) -> Jcp P (nextCp (handle_headers_r P now p hs k s)).
+Proof.
+  intros HJ.
+  assert (Hord : handle_headers_r P now p hs k s = handle_headers P now p hs s ->
+                 Jcp P (nextCp (handle_headers_r P now p hs k s))).
+  { intros ->. apply handle_headers_shape2. exact HJ. }
+  unfold handle_headers_r, handle_headers in *.
+  destruct hs as [|x t]; [exact (Hord eq_refl)|].
+  destruct (negb (headers_connected (x :: t))) eqn:Hc; [exact (Hord eq_refl)|].
+  apply negb_false_iff in Hc. fold (acc0 s) in *.
+  destruct (Faults.loop_r_cases P now p k (x :: t) Hc (acc0 s)) as [E|(bh & rest & bH & h & _ & _ & E)];
+    rewrite E in *; [exact (Hord eq_refl)|].
+  rewrite nextCp_resync. unfold crash_state. apply restart_J.
+  cbn [pop_event nextCp]. rewrite nextCp_roll_back_to. exact HJ.
+Qed.
+
 Definition step_rel2 (P : params) (s : state) (o : op) (c c' : core) : Prop :=
   normA c c' \/
   (exists prev fs stop, o = OWriteCF prev fs stop /\ snd (write_cf prev fs stop s) = true /\ connB fs c c').
 
 Lemma step_J P s o : Jcp P (nextCp s) -> Jcp P (nextCp (step P s o)).
 Proof.
-  intros HJ. destruct o as [p now hs|p now x|p st la full|p|prev fs stop|h| |p now hs k]; cbn [step].
+  intros HJ. destruct o as [p now hs|p now x|p st la full|p|prev fs stop|h| |p now hs k|p now hs k]; cbn [step].
+  9:{ apply handle_headers_r_J. exact HJ. }
   8:{ apply handle_headers_f_shape2. exact HJ. }
   7:{ unfold restart, chain_tip. destruct (last (chain s)) as [t|] eqn:Et; [|exact HJ].
       cbn [nextCp]. apply find_next_cp_J. unfold tip_height, zlen. destruct (chain s); [discriminate|]. cbn [length]. lia. }
